@@ -6,7 +6,7 @@ sys.path.insert(0, VERIF); sys.path.insert(0, os.path.join(VERIF, 'tools'))
 import obligations
 
 TEXT = {
- 'C05': ('Bounded symbolic model checking of the real decoder (IR-derived C, CBMC/SAT): every primitive from an arbitrary I_dec state on arbitrary remaining input of bounded length, at hooked window sizes; End-of-input must be thrown exactly when the input is a truncated prefix.', '4 C05, 3.2, 3.6'),
+ 'C05': ('Bounded symbolic model checking of the real decoder (IR-derived C, CBMC/SAT): every primitive from an arbitrary I_dec state on arbitrary remaining input of bounded length, at hooked window sizes; End-of-input must be thrown exactly when the input is a truncated prefix. Block/file level: CdnsBlockRead::read truncated at every token boundary and CdnsReader::read_block one step from an arbitrary reader state (nested reads as contracts): CdnsDecoderEnd propagates, eof exactly at the end, the block counter counts complete blocks only.', '4 C05, 3.2, 3.6'),
  'C06': ('Bounded symbolic model checking of the real encoder: one inductive step per public write operation from an arbitrary buffer state (symbolic fill level/contents/argument) against a reference RFC 8949 encoder; sequences of any length follow from the step.', '4 C06, 3.2'),
  'C07': ('Bounded symbolic model checking of the real decoder against a reference RFC 8949 parser, all head widths and window offsets; skip_item verified body-wise against the contract of its recursive call.', '4 C07, 3.3'),
  'C01': ('Compositional bounded model checking: L1 bytes<->items is C06/C07; here L2: every block-level structure\'s write() equals an independently written RFC 8618 reference encoding and read() of the reference encoding returns the value (all presence subsets, full-width integers, symbolic member order). Block/table composition: see notes.', '4 C01, 3.5'),
